@@ -83,9 +83,11 @@ func c09Start() {
 		}
 		time.Sleep(100 * time.Millisecond)
 	}
-	if len(c09Key) == 0 {
+	if err != nil {
 		panic(fmt.Sprint("C09: cannot read jwt key: ", err))
 	}
+	// an EMPTY stored key is not a harness problem but an observation: the cases go on, and a token anybody can make
+	// (kind "emptykey": signed with the empty key) must still be refused
 	// wait for the HTTP API
 	for i := 0; i < 100; i++ {
 		resp, e := c09HTTP.Get("http://127.0.0.1:" + c09Srv.opts.HTTPPort + "/v1/nodes")
